@@ -1,6 +1,6 @@
 (* C01: the ladder statements in propositional form, the lift to tool-grown histories, and the
    witnesses showing which hypotheses of c01_step cannot be dropped. *)
-From VV.M1 Require Import Oracles Hyp NormalizeP BtP DiffP DiffEqP KahnP ApplyLocalP DiffPermP AttrsP C01P WitnessP.
+From VV.M1 Require Import Oracles Hyp NormalizeP BtP DiffP DiffEqP KahnP ApplyLocalP DiffPermP AttrsP GrowP C01P WitnessP.
 From Coq Require Import Lia Permutation.
 
 (* split conjunctions only (never an equation: [split] on [eq] would unify by lazy conversion) *)
@@ -85,12 +85,10 @@ Proof. intro H. apply C01_step, c01_column_attrs_step, H. Qed.
 Definition fill_plan (p : plan) (B : schema) : plan :=
   mkPlan (p_id p) (p_comment p) (p_created_at p) (p_version p) (filled_actions p B).
 
-(* what is asked of the models at each step; the baseline's own invariant is derived, not assumed *)
-Definition c01_step_models (B T : schema) : bool :=
-  (nodup_str (map t_name T) && diff_ok B T && common_tables attrs_only B T)%bool.
-
-Lemma c01_step_split B T : c01_step B T = (baseline_ok B && c01_step_models B T)%bool.
-Proof. unfold c01_step, c01_step_models. now rewrite !andb_assoc. Qed.
+(* what is asked of the models at each step (c01_models p, Corr/Hyp.v); the baseline's own invariant
+   is derived, not assumed *)
+Definition c01_step_models : schema -> schema -> bool := c01_models attrs_only.
+Definition c01_grow_models : schema -> schema -> bool := c01_models grow_only.
 
 Inductive Grown (hyp : schema -> schema -> bool) : list plan -> Prop :=
 | Grown_nil : Grown hyp []
@@ -114,7 +112,66 @@ Lemma plan_next_ok T H B acts : replay H = Ok B -> diff_actions B T = Ok acts ->
   plan_next T H = Ok (mkPlan "" None None (next_version H) acts).
 Proof. unfold plan_next. now intros -> ->. Qed.
 
-(* one step from a good baseline *)
+Section Histories.
+  Variable q : table_def -> table_def -> bool.
+  Hypothesis q_sound : group_sound q.
+
+  Lemma gen_closes B T : baseline_ok B = true -> c01_models q B T = true -> closes_gap B T = true.
+  Proof.
+    intros Hb Hm. destruct (gen_step_sound q q_sound B T Hb Hm) as (acts & B' & H1 & H2 & _ & H3 & H4).
+    eapply closes_gap_unfold; eassumption.
+  Qed.
+
+  (* one step from a good baseline *)
+  Theorem gen_history_step H B T :
+    replay H = Ok B -> baseline_ok B = true -> c01_models q B T = true ->
+    exists p B',
+      plan_next T H = Ok p /\ p_version p = next_version H /\
+      closes_gap B T = true /\
+      replay (H ++ [fill_plan p B]) = Ok B' /\ baseline_ok B' = true /\
+      diff_actions B' T = Ok [] /\ diff_actions T B' = Ok [] /\
+      plan_next T (H ++ [fill_plan p B])
+        = Ok (mkPlan "" None None (next_version (H ++ [fill_plan p B])) []).
+  Proof.
+    intros Hr Hb Hm.
+    destruct (gen_step_sound q q_sound B T Hb Hm) as (acts & B' & H1 & H2 & H3 & H4 & H5).
+    exists (mkPlan "" None None (next_version H) acts), B'.
+    assert (Hr' : replay (H ++ [fill_plan (mkPlan "" None None (next_version H) acts) B]) = Ok B').
+    { rewrite (replay_snoc H B _ Hr). unfold fill_plan. cbn [p_actions]. now rewrite apply_all_filled. }
+    split; [now apply (plan_next_ok T H B)|]. split; [reflexivity|]. split; [now apply gen_closes|].
+    split; [exact Hr'|]. split; [exact H3|]. split; [exact H4|]. split; [exact H5|].
+    now apply (plan_next_ok T _ B').
+  Qed.
+
+  (* along a grown history every baseline is good *)
+  Theorem gen_history_baseline H : Grown (c01_models q) H ->
+    exists B, replay H = Ok B /\ baseline_ok B = true.
+  Proof.
+    induction 1 as [|H B T p HG IH Hr Hm Hp].
+    - exists []. split; reflexivity.
+    - destruct IH as [B0 [Hr0 Hb0]]. rewrite Hr in Hr0. inversion Hr0; subst B0; clear Hr0.
+      destruct (gen_history_step H B T Hr Hb0 Hm) as (p' & B' & Hp' & _ & _ & Hr' & Hb' & _).
+      rewrite Hp in Hp'. inversion Hp'; subst p'. exists B'. auto.
+  Qed.
+
+  Theorem gen_histories H B T :
+    Grown (c01_models q) H -> replay H = Ok B -> c01_models q B T = true ->
+    exists p B',
+      plan_next T H = Ok p /\ closes_gap B T = true /\
+      replay (H ++ [fill_plan p B]) = Ok B' /\ baseline_ok B' = true /\
+      diff_actions B' T = Ok [] /\ diff_actions T B' = Ok [] /\
+      plan_next T (H ++ [fill_plan p B])
+        = Ok (mkPlan "" None None (next_version (H ++ [fill_plan p B])) []) /\
+      Grown (c01_models q) (H ++ [fill_plan p B]).
+  Proof.
+    intros HG Hr Hm. destruct (gen_history_baseline H HG) as [B0 [Hr0 Hb0]].
+    rewrite Hr in Hr0. inversion Hr0; subst B0; clear Hr0.
+    destruct (gen_history_step H B T Hr Hb0 Hm) as (p & B' & H1 & _ & H2 & H3 & H4 & H5 & H6 & H7).
+    exists p, B'. repeat (split; [assumption|]). eapply Grown_step; eassumption.
+  Qed.
+End Histories.
+
+(* ---------- instances: attribute steps ---------- *)
 Theorem C01_history_step H B T :
   replay H = Ok B -> baseline_ok B = true -> c01_step_models B T = true ->
   exists p B',
@@ -124,28 +181,11 @@ Theorem C01_history_step H B T :
     diff_actions B' T = Ok [] /\ diff_actions T B' = Ok [] /\
     plan_next T (H ++ [fill_plan p B])
       = Ok (mkPlan "" None None (next_version (H ++ [fill_plan p B])) []).
-Proof.
-  intros Hr Hb Hm.
-  assert (Hs : c01_step B T = true) by now rewrite c01_step_split, Hb, Hm.
-  destruct (c01_step_sound B T Hs) as (acts & B' & H1 & H2 & H3 & H4 & H5).
-  exists (mkPlan "" None None (next_version H) acts), B'.
-  assert (Hr' : replay (H ++ [fill_plan (mkPlan "" None None (next_version H) acts) B]) = Ok B').
-  { rewrite (replay_snoc H B _ Hr). unfold fill_plan. cbn [p_actions]. now rewrite apply_all_filled. }
-  split; [now apply (plan_next_ok T H B)|]. split; [reflexivity|]. split; [now apply C01_step|].
-  split; [exact Hr'|]. split; [exact H3|]. split; [exact H4|]. split; [exact H5|].
-  now apply (plan_next_ok T _ B').
-Qed.
+Proof. exact (gen_history_step attrs_only attrs_only_sound H B T). Qed.
 
-(* along a grown history every baseline is good *)
 Theorem C01_history_baseline H : Grown c01_step_models H ->
   exists B, replay H = Ok B /\ baseline_ok B = true.
-Proof.
-  induction 1 as [|H B T p HG IH Hr Hm Hp].
-  - exists []. split; reflexivity.
-  - destruct IH as [B0 [Hr0 Hb0]]. rewrite Hr in Hr0. inversion Hr0; subst B0; clear Hr0.
-    destruct (C01_history_step H B T Hr Hb0 Hm) as (p' & B' & Hp' & _ & _ & Hr' & Hb' & _).
-    rewrite Hp in Hp'. inversion Hp'; subst p'. exists B'. auto.
-Qed.
+Proof. exact (gen_history_baseline attrs_only attrs_only_sound H). Qed.
 
 Theorem C01_histories_partial H B T :
   Grown c01_step_models H -> replay H = Ok B -> c01_step_models B T = true ->
@@ -156,11 +196,55 @@ Theorem C01_histories_partial H B T :
     plan_next T (H ++ [fill_plan p B])
       = Ok (mkPlan "" None None (next_version (H ++ [fill_plan p B])) []) /\
     Grown c01_step_models (H ++ [fill_plan p B]).
+Proof. exact (gen_histories attrs_only attrs_only_sound H B T). Qed.
+
+(* ---------- instances: growing steps (attributes, added constraints, added plain columns) ---------- *)
+Lemma grow_only_sound : group_sound grow_only.
+Proof. exact grow_fold. Qed.
+
+Theorem c01_grow_sound B T : c01_grow B T = true ->
+  exists acts B',
+    diff_actions B T = Ok acts /\ apply_all B acts = Ok B' /\ baseline_ok B' = true
+    /\ diff_actions B' T = Ok [] /\ diff_actions T B' = Ok [].
 Proof.
-  intros HG Hr Hm. destruct (C01_history_baseline H HG) as [B0 [Hr0 Hb0]].
-  rewrite Hr in Hr0. inversion Hr0; subst B0; clear Hr0.
-  destruct (C01_history_step H B T Hr Hb0 Hm) as (p & B' & H1 & _ & H2 & H3 & H4 & H5 & H6 & H7).
-  exists p, B'. repeat (split; [assumption|]). eapply Grown_step; eassumption.
+  unfold c01_grow. rewrite andb_true_iff. intros [HB Hm].
+  exact (gen_step_sound grow_only grow_only_sound B T HB Hm).
+Qed.
+
+Theorem C01_grow B T : c01_grow B T = true -> closes_gap B T = true.
+Proof.
+  unfold c01_grow. rewrite andb_true_iff. intros [HB Hm].
+  exact (gen_closes grow_only grow_only_sound B T HB Hm).
+Qed.
+
+Theorem C01_grow_history_baseline H : Grown c01_grow_models H ->
+  exists B, replay H = Ok B /\ baseline_ok B = true.
+Proof. exact (gen_history_baseline grow_only grow_only_sound H). Qed.
+
+Theorem C01_grow_histories H B T :
+  Grown c01_grow_models H -> replay H = Ok B -> c01_grow_models B T = true ->
+  exists p B',
+    plan_next T H = Ok p /\ closes_gap B T = true /\
+    replay (H ++ [fill_plan p B]) = Ok B' /\ baseline_ok B' = true /\
+    diff_actions B' T = Ok [] /\ diff_actions T B' = Ok [] /\
+    plan_next T (H ++ [fill_plan p B])
+      = Ok (mkPlan "" None None (next_version (H ++ [fill_plan p B])) []) /\
+    Grown c01_grow_models (H ++ [fill_plan p B]).
+Proof. exact (gen_histories grow_only grow_only_sound H B T). Qed.
+
+(* attribute steps are growing steps *)
+Lemma attrs_only_grow b tn : attrs_only b tn = true -> grow_only b tn = true.
+Proof.
+  unfold attrs_only, grow_only. destruct (table_group (t_name b) b tn) as [|a g]; [reflexivity|].
+  rewrite !andb_true_iff. intros [[H1 H2] H3]. repeat split; try assumption.
+  rewrite forallb_forall in *. intros x Hx. specialize (H1 x Hx). destruct x; try discriminate; reflexivity.
+Qed.
+Lemma c01_step_grow B T : c01_step B T = true -> c01_grow B T = true.
+Proof.
+  rewrite c01_step_split. unfold c01_grow, c01_models. rewrite !andb_true_iff.
+  intros [HB [[H1 H2] H3]]. repeat split; try assumption.
+  unfold common_tables in *. rewrite forallb_forall in *. intros t Ht. specialize (H3 t Ht).
+  destruct (find_t _ B); [|reflexivity]. destruct (normalize t); [now apply attrs_only_grow|discriminate].
 Qed.
 
 (* ---------- witnesses ---------- *)
@@ -184,6 +268,30 @@ Lemma w_step_hyp : c01_step w_step_B w_step_T = true /\ loader_accepts w_step_T 
      Ok [CreateTable "new" [pkcol "id"; fkcol "tid" "t" "id"] []; DeleteTable "gone";
          ModifyColumnDefault "t" "s" (Some "a"); ModifyColumnNullable "t" "s" true None;
          ModifyColumnType "t" "s" w_en2 None; ModifyColumnComment "t" "s" (Some "cm")].
+Proof. vm_conj. Qed.
+
+(* a growing step outside c01_step: table created and dropped, column retyped / made NOT NULL / given a
+   default, two plain columns added, three constraints added — one of them a foreign key to the created
+   table, which the second re-ordering pass moves behind the others *)
+Definition w_grow_B : schema := Eval vm_compute in
+  w_norm [mkTable "t" None [pkcol "id"; icol "a"] []; mkTable "gone" None [pkcol "id"] []].
+Definition w_grow_T : schema :=
+  [mkTable "t" None
+     [pkcol "id"; w_col "a" (TSimple Text) false (Some (DStr "x")) None;
+      w_col "b" (TVarchar 8) true None (Some "new"); w_col "c" (TSimple Integer) true None None]
+     [CUnique (Some "ua") ["a"; "b"]; CIndex None ["c"]; CForeignKey None ["c"] "new" ["id"] None None];
+   mkTable "new" None [pkcol "id"] []].
+Lemma w_grow_hyp :
+  c01_grow w_grow_B w_grow_T = true /\ c01_step w_grow_B w_grow_T = false /\
+  loader_accepts w_grow_T = true /\
+  diff_actions w_grow_B w_grow_T =
+    Ok [CreateTable "new" [pkcol "id"] []; DeleteTable "gone";
+        ModifyColumnType "t" "a" (TSimple Text) None; ModifyColumnNullable "t" "a" false None;
+        ModifyColumnDefault "t" "a" (Some "x");
+        AddColumn "t" (w_col "b" (TVarchar 8) true None (Some "new")) None;
+        AddColumn "t" (w_col "c" (TSimple Integer) true None None) None;
+        AddConstraint "t" (CUnique (Some "ua") ["a"; "b"]); AddConstraint "t" (CIndex None ["c"]);
+        AddConstraint "t" (CForeignKey None ["c"] "new" ["id"] None None)].
 Proof. vm_conj. Qed.
 
 Definition w_first_T : schema :=
